@@ -15,6 +15,8 @@
 #include <memory>
 #include <algorithm>
 #include <functional>
+#include <thread>
+#include <atomic>
 #include <unistd.h>
 #include <sys/wait.h>
 #include <sigc++/sigc++.h>
@@ -32,7 +34,7 @@ extern "C" int __lsan_do_recoverable_leak_check();
 
 // ---------------------------------------------------------------------------------------------
 // allocation accounting
-static long g_live_blocks = 0;
+static thread_local long g_live_blocks = 0;
 void* operator new(std::size_t n)
 {
   void* p = std::malloc(n ? n : 1);
@@ -73,8 +75,8 @@ struct Program
   std::vector<Op> main;
 };
 
-static Program* g_prog = nullptr;
-static std::string* g_trace = nullptr;
+static thread_local Program* g_prog = nullptr;
+static thread_local std::string* g_trace = nullptr;
 static void ev(const char* fmt, ...) __attribute__((format(printf, 1, 2)));
 #include <cstdarg>
 static void ev(const char* fmt, ...)
@@ -94,7 +96,7 @@ static void ev(const char* fmt, ...)
 static int run_script(long body, int arg);
 
 // live functor instances per body id
-static long g_sc_live[4096];
+static thread_local long g_sc_live[4096];
 struct TrA;
 struct TrB;
 static void collect_owned(long body, std::vector<std::shared_ptr<void>>& out);
@@ -152,7 +154,7 @@ struct SlotVar
 };
 
 // accumulator interpreting the current program's accumulator script
-static long g_cur_acc = -1;
+static thread_local long g_cur_acc = -1;
 struct ScriptAcc
 {
   long id;
@@ -295,15 +297,15 @@ struct Table
   void put(long k, T v) { live[k] = v; used[k] = true; }
   void drop(long k) { live.erase(k); }
 };
-static Table<TrVar>* g_tr;
+static thread_local Table<TrVar>* g_tr;
 // a trackable the program can still name (plain: exists; shared: handle not released)
 static TrVar* prog_tr(long k);
 // a live trackable object (shared ones may outlive the program's handle)
 static TrVar* live_tr(long k);
-static Table<SlotVar>* g_sl;
-static Table<GBase*>* g_sg;
-static Table<sigc::connection*>* g_cn;
-static Table<sigc::scoped_connection*>* g_kn;
+static thread_local Table<SlotVar>* g_sl;
+static thread_local Table<GBase*>* g_sg;
+static thread_local Table<sigc::connection*>* g_cn;
+static thread_local Table<sigc::scoped_connection*>* g_kn;
 
 static TrVar* live_tr(long k)
 {
@@ -922,9 +924,32 @@ static std::string run_sig(const std::string& line)
   return result + buf;
 }
 
+// K threads, each running its own share of the programs on its own objects, started together
+static int run_threads(int K)
+{
+  std::vector<std::string> lines;
+  { char* lb = nullptr; size_t ln = 0; ssize_t got;
+    while ((got = getline(&lb, &ln, stdin)) >= 0)
+    { std::string l(lb, got); while (!l.empty() && (l.back() == '\n' || l.back() == '\r')) l.pop_back(); lines.push_back(l); }
+    free(lb); }
+  std::vector<std::string> out(lines.size());
+  std::atomic<int> ready{0};
+  std::vector<std::thread> ts;
+  for (int k = 0; k < K; ++k)
+    ts.emplace_back([&, k]() {
+      ++ready;
+      while (ready.load() < K) std::this_thread::yield();
+      for (size_t i = k; i < lines.size(); i += K) out[i] = run_sig(lines[i]);
+    });
+  for (auto& t : ts) t.join();
+  for (auto& o : out) printf("%s\n", o.c_str());
+  return 0;
+}
+
 int main(int argc, char** argv)
 {
   std::string mode = argc > 1 ? argv[1] : "sig";
+  if (mode == "threads") return run_threads(argc > 2 ? atoi(argv[2]) : 4);
   bool nofork = argc > 2 && std::string(argv[2]) == "nofork";
   std::string line;
   char* lb = nullptr; size_t ln = 0; ssize_t got;
